@@ -7,6 +7,7 @@ import VlsModel.Lemmas.EnforcementFn
 import VlsModel.Lemmas.HandlerFn
 import VlsModel.Gen.FnEnforceTest
 import VlsModel.Gen.FnChannelSlotId
+import VlsModel.Gen.FnChannelValidate
 /-
 C01 — the progression check in front of the holder counter, `Validator::set_next_holder_commit_num`
 (`vls-core/src/policy/validator.rs:256`, a default method of `trait Validator`, mechanism "set_next_holder_commit_num
@@ -690,5 +691,161 @@ theorem C01_fn_channel_slot_unwrap_stub {I : Type} (s : ChannelSlot I) :
   | Ready ch => exact ⟨fun h => by simp [slotOf] at h, fun _ => rfl⟩
 
 end Unguarded
+
+/-! ### Round 10: `Channel::validate_holder_commitment_tx_phase2` itself (`Gen/FnChannelValidate.lean`)
+
+channel.rs:1127 (the semantic entry point behind `ValidateCommitmentTx2`), regenerated on every run (targets
+`translate/fn_targets/ChannelValidate.b1.json`; content building, the policy check `Validator::validate_holder_commitment_tx`
+— generated and tied on its own in `Props/C02Fn.lean` —, LDK's transaction building, the signature check
+`check_holder_tx_signatures`, the payment ledger and `persist()` are declared externals).  The clause of C01 it carries, on the
+generated body: **a successor commitment is staged only after the policy check on the state as it was, the check of the
+counterparty's signatures on the transaction REBUILT from the request, and the payment check all passed**; what is staged is the
+request's own content with the request's own signatures, only for `n = next`, and it is written before `Ok`. -/
+section ValidatePhase2
+open VlsModel.Gen.FnChannelValidate (EnforcementState CommitmentInfo2 HTLCInfo2 HTLCOutputInCommitment ChannelSetup Channel)
+
+theorem vp_bind_ok {α β : Type} {x : Rs.M α} {f : α → Rs.M β} {b : β} (h : x >>= f = .ok b) :
+    ∃ a, x = .ok a ∧ f a = .ok b := by
+  cases x with
+  | error e => cases h
+  | ok a => exact ⟨a, rfl, h⟩
+
+variable {PaymentHash CommitmentSignatures ChannelId Signature PublicKey Node NodeState BalanceDelta PaymentSummary Validator
+  TxCreationKeys CommitmentTransaction ChainState : Type}
+
+theorem C01_fn_validate_holder_commitment_tx_phase2
+    (unchecked : Nat → PublicKey)
+    (mkInfo : Nat → Nat → List (HTLCInfo2 PaymentHash) → List (HTLCInfo2 PaymentHash) → Nat → Rs.M (CommitmentInfo2 PaymentHash))
+    (node : Node) (getState : Node → NodeState)
+    (claimable : EnforcementState PaymentHash CommitmentSignatures → NodeState → Option (CommitmentInfo2 PaymentHash) →
+        Option (CommitmentInfo2 PaymentHash) → ChannelSetup → Rs.M BalanceDelta)
+    (incoming : EnforcementState PaymentHash CommitmentSignatures → Option (CommitmentInfo2 PaymentHash) →
+        Option (CommitmentInfo2 PaymentHash) → PaymentSummary)
+    (validator : Validator) (chainState : ChainState)
+    (validateHolder : Validator → EnforcementState PaymentHash CommitmentSignatures → Nat → PublicKey → ChannelSetup → ChainState →
+        CommitmentInfo2 PaymentHash → Rs.M Unit)
+    (mkKeys : PublicKey → TxCreationKeys)
+    (mkTx : Nat → TxCreationKeys → Nat → Nat → Nat → List (HTLCOutputInCommitment PaymentHash) → CommitmentTransaction)
+    (checkSigs : PublicKey → TxCreationKeys → Nat → Signature → List Signature → CommitmentTransaction → Rs.M Unit)
+    (outgoing : EnforcementState PaymentHash CommitmentSignatures → Option (CommitmentInfo2 PaymentHash) →
+        Option (CommitmentInfo2 PaymentHash) → PaymentSummary)
+    (validatePayments : NodeState → ChannelId → PaymentSummary → PaymentSummary → BalanceDelta → Validator → Rs.M Unit)
+    (mkSigs : Signature → List Signature → CommitmentSignatures)
+    (persist : EnforcementState PaymentHash CommitmentSignatures → Rs.M Unit)
+    (self self' : Channel PaymentHash CommitmentSignatures ChannelId) (n feerate toHolder toCp : Nat)
+    (off recv : List (HTLCInfo2 PaymentHash)) (csig : Signature) (hsigs : List Signature)
+    (h : Channel.validate_holder_commitment_tx_phase2 unchecked mkInfo node getState claimable incoming validator chainState
+           validateHolder mkKeys mkTx checkSigs outgoing validatePayments mkSigs persist self n feerate toHolder toCp off recv
+           csig hsigs = .ok self') :
+    ∃ info2 htlcs delta,
+      n ≤ self.enforcement_state.next_holder_commit_num + 1 ∧
+      mkInfo toHolder toCp off recv feerate = .ok info2 ∧
+      validateHolder validator self.enforcement_state n (unchecked n) self.setup chainState info2 = .ok () ∧
+      Channel.htlcs_info2_to_oic info2.offered_htlcs info2.received_htlcs = .ok htlcs ∧
+      checkSigs (unchecked n) (mkKeys (unchecked n)) feerate csig hsigs
+        (mkTx n (mkKeys (unchecked n)) feerate toHolder toCp htlcs) = .ok () ∧
+      claimable self.enforcement_state (getState node) (some info2) none self.setup = .ok delta ∧
+      validatePayments (getState node) self.id0 (incoming self.enforcement_state (some info2) none)
+        (outgoing self.enforcement_state (some info2) none) delta validator = .ok () ∧
+      ((n = self.enforcement_state.next_holder_commit_num ∧
+          self' = { self with enforcement_state :=
+                      { self.enforcement_state with next_holder_commit_info := some (info2, mkSigs csig hsigs) } } ∧
+          persist self'.enforcement_state = .ok ())
+       ∨ (n ≠ self.enforcement_state.next_holder_commit_num ∧ self' = self)) := by
+  unfold Channel.validate_holder_commitment_tx_phase2 at h
+  obtain ⟨pt, hpt, h⟩ := vp_bind_ok h
+  have hptv : n ≤ self.enforcement_state.next_holder_commit_num + 1 ∧ pt = unchecked n := by
+    unfold Channel.get_per_commitment_point at hpt
+    obtain ⟨t, ht, hpt⟩ := vp_bind_ok hpt
+    have htv : t = self.enforcement_state.next_holder_commit_num + 1 := by
+      unfold Rs.uadd at ht; split at ht
+      · exact (Except.ok.inj ht).symm
+      · cases ht
+    by_cases hg : n > t
+    · simp [hg, Rs.fail] at hpt
+    · simp only [hg, decide_false] at hpt
+      have := Except.ok.inj hpt
+      exact ⟨by omega, this.symm⟩
+  obtain ⟨hle, hpte⟩ := hptv
+  subst hpte
+  obtain ⟨info2, hinfo, h⟩ := vp_bind_ok h
+  obtain ⟨delta, hdelta, h⟩ := vp_bind_ok h
+  obtain ⟨u1, hval, h⟩ := vp_bind_ok h
+  obtain ⟨htlcs, hoic, h⟩ := vp_bind_ok h
+  obtain ⟨u2, hsig, h⟩ := vp_bind_ok h
+  obtain ⟨u3, hpay, h⟩ := vp_bind_ok h
+  dsimp only at h
+  refine ⟨info2, htlcs, delta, hle, hinfo, by cases u1; exact hval, hoic, by cases u2; exact hsig, hdelta,
+    by cases u3; exact hpay, ?_⟩
+  by_cases hn : n = self.enforcement_state.next_holder_commit_num
+  · left
+    have hb : (n == self.enforcement_state.next_holder_commit_num) = true := by simp [hn]
+    rw [if_pos hb] at h
+    obtain ⟨u, hper, h⟩ := vp_bind_ok h
+    have e2 := Except.ok.inj h
+    subst e2
+    exact ⟨hn, rfl, by cases u; exact hper⟩
+  · right
+    have hb : ¬ ((n == self.enforcement_state.next_holder_commit_num) = true) := by simp [hn]
+    rw [if_neg hb] at h
+    have e2 := Except.ok.inj h
+    subst e2
+    exact ⟨hn, rfl⟩
+
+/-- nothing is staged behind a failed signature check: whatever the other externals say, if `check_holder_tx_signatures`
+    refuses the rebuilt transaction the request is refused (no `Ok`, hence no staged successor and no write) -/
+theorem C01_fn_validate_phase2_needs_signatures
+    (unchecked : Nat → PublicKey)
+    (mkInfo : Nat → Nat → List (HTLCInfo2 PaymentHash) → List (HTLCInfo2 PaymentHash) → Nat → Rs.M (CommitmentInfo2 PaymentHash))
+    (node : Node) (getState : Node → NodeState)
+    (claimable : EnforcementState PaymentHash CommitmentSignatures → NodeState → Option (CommitmentInfo2 PaymentHash) →
+        Option (CommitmentInfo2 PaymentHash) → ChannelSetup → Rs.M BalanceDelta)
+    (incoming : EnforcementState PaymentHash CommitmentSignatures → Option (CommitmentInfo2 PaymentHash) →
+        Option (CommitmentInfo2 PaymentHash) → PaymentSummary)
+    (validator : Validator) (chainState : ChainState)
+    (validateHolder : Validator → EnforcementState PaymentHash CommitmentSignatures → Nat → PublicKey → ChannelSetup → ChainState →
+        CommitmentInfo2 PaymentHash → Rs.M Unit)
+    (mkKeys : PublicKey → TxCreationKeys)
+    (mkTx : Nat → TxCreationKeys → Nat → Nat → Nat → List (HTLCOutputInCommitment PaymentHash) → CommitmentTransaction)
+    (checkSigs : PublicKey → TxCreationKeys → Nat → Signature → List Signature → CommitmentTransaction → Rs.M Unit)
+    (outgoing : EnforcementState PaymentHash CommitmentSignatures → Option (CommitmentInfo2 PaymentHash) →
+        Option (CommitmentInfo2 PaymentHash) → PaymentSummary)
+    (validatePayments : NodeState → ChannelId → PaymentSummary → PaymentSummary → BalanceDelta → Validator → Rs.M Unit)
+    (mkSigs : Signature → List Signature → CommitmentSignatures)
+    (persist : EnforcementState PaymentHash CommitmentSignatures → Rs.M Unit)
+    (self : Channel PaymentHash CommitmentSignatures ChannelId) (n feerate toHolder toCp : Nat)
+    (off recv : List (HTLCInfo2 PaymentHash)) (csig : Signature) (hsigs : List Signature)
+    (hbad : ∀ pt keys tx u, checkSigs pt keys feerate csig hsigs tx ≠ .ok u) :
+    ∀ r, Channel.validate_holder_commitment_tx_phase2 unchecked mkInfo node getState claimable incoming validator chainState
+           validateHolder mkKeys mkTx checkSigs outgoing validatePayments mkSigs persist self n feerate toHolder toCp off recv
+           csig hsigs ≠ .ok r := by
+  intro r h
+  obtain ⟨_, _, _, _, _, _, _, hs, _⟩ := C01_fn_validate_holder_commitment_tx_phase2 unchecked mkInfo node getState claimable
+    incoming validator chainState validateHolder mkKeys mkTx checkSigs outgoing validatePayments mkSigs persist self r n feerate
+    toHolder toCp off recv csig hsigs h
+  exact hbad _ _ _ () hs
+
+/-- non-vacuity: with accepting externals the successor 1 of a channel at `next = 1` is staged with the request's content and
+    signatures and written; with a signature check that refuses, the same request is refused -/
+example :
+    let self : Channel Nat Nat Nat :=
+      { enforcement_state := { next_holder_commit_num := 1, next_holder_commit_info := none }, setup := ⟨⟩, id0 := 0 }
+    let info : CommitmentInfo2 Nat := { offered_htlcs := [], received_htlcs := [] }
+    let run (checkSigs : Nat → Nat → Nat → Nat → List Nat → Nat → Rs.M Unit) :=
+      Channel.validate_holder_commitment_tx_phase2 (PublicKey := Nat) (Node := Unit) (NodeState := Unit) (BalanceDelta := Unit)
+        (PaymentSummary := Unit) (Validator := Unit) (TxCreationKeys := Nat) (CommitmentTransaction := Nat) (Signature := Nat)
+        (ChainState := Unit)
+        (fun n => n) (fun _ _ _ _ _ => .ok info) () (fun _ => ()) (fun _ _ _ _ _ => .ok ()) (fun _ _ _ => ()) () ()
+        (fun _ _ _ _ _ _ _ => .ok ()) id (fun n _ _ _ _ _ => n) checkSigs (fun _ _ _ => ()) (fun _ _ _ _ _ _ => .ok ())
+        (fun c hs => c + hs.length) (fun _ => .ok ()) self 1 253 10 20 [] [] 40 [1, 2]
+    run (fun _ _ _ _ _ _ => .ok ())
+        = .ok { self with enforcement_state := { next_holder_commit_num := 1, next_holder_commit_info := some (info, 42) } }
+    ∧ (∀ r, run (fun _ _ _ _ _ _ => Rs.fail "policy-commitment") ≠ .ok r) := by
+  refine ⟨rfl, ?_⟩
+  intro r
+  exact C01_fn_validate_phase2_needs_signatures _ _ _ _ _ _ _ _ _ _ _ _ _ _ _ _ _ _ _ _ _ _ _ _ _
+    (by intro _ _ _ u; simp [Rs.fail]) r
+
+end ValidatePhase2
 
 end VlsModel.Props.C01Fn
